@@ -373,6 +373,10 @@ def _finish(prop_id, prop, tier, seed, t0, results, known, fixed, replay_notes, 
     # evidence samples: deterministic pick
     samples.sort(key=lambda s: case_hash(s))
     samples = samples[:5]
+    if not samples:
+        # every non-trivial case failed: show the failing cases themselves
+        for s_, fl in list(buckets.items())[:3]:
+            samples.append({"failing_case_signature": s_, "detail": json.loads(json.dumps(fl[0].get("detail"), default=str))})
 
     new_sigs = [s for s in buckets if s not in known]
     violations = []
@@ -485,10 +489,15 @@ def _finish(prop_id, prop, tier, seed, t0, results, known, fixed, replay_notes, 
     if args.triage:
         print("%s triage: evaluations=%d distinct_nontrivial=%d new signatures=%d wall=%.1fs" % (prop_id, evaluations, len(nontrivial), len(violations), wall))
         return 0
-    if evaluations < 1 or len(nontrivial) < 2:
+    if (evaluations < 1 or len(nontrivial) < 2) and not violations:
         _write_evidence(prop_id, ev)
         raise HarnessError("vacuous run: evaluations=%d distinct_nontrivial=%d" % (evaluations, len(nontrivial)))
-    _write_evidence(prop_id, ev)
+    try:
+        _write_evidence(prop_id, ev)
+    except Exception as e:
+        if not violations:
+            raise
+        print("warning: evidence file not valid (%s); violations are reported regardless" % (type(e).__name__,))
     print("%s tier=%s seed=%d evaluations=%d distinct_nontrivial=%d known=%d new=%d wall=%.1fs" % (prop_id, tier, seed, evaluations, len(nontrivial), len(known_hit), len(violations), wall))
     if args.triage:
         return 0
